@@ -22,7 +22,7 @@ VENV_PY = os.environ.get("SYMX_VENV_PY", "/venv/bin/python")
 
 class Case:
     def __init__(self, name, fn, params=None, replay=None, witness=None, bounds=None, stubs=(), assumptions=(),
-                 max_paths=200000, timeout_s=None, env=None, functions=(), max_witness=None):
+                 max_paths=200000, timeout_s=None, env=None, functions=(), max_witness=None, shards=1, shard_depth=6):
         self.name = name
         self.fn = fn
         self.params = params or {}
@@ -36,10 +36,12 @@ class Case:
         self.env = env or {}
         self.functions = list(functions)
         self.max_witness = max_witness
+        self.shards = shards
+        self.shard_depth = shard_depth
 
 
 def _run_case(args):
-    modname, idx, tier, qt = args
+    modname, idx, tier, qt, shard = args
     from . import core, loader
     t0 = time.time()
     res = {"case": None, "error": None}
@@ -48,7 +50,8 @@ def _run_case(args):
         case = mod.cases(tier)[idx]
         res["case"] = case.name
         deadline = t0 + case.timeout_s if case.timeout_s else None
-        ex = core.Explorer(max_paths=case.max_paths, query_timeout_ms=qt, want_witness=bool(case.witness), deadline=deadline)
+        ex = core.Explorer(max_paths=case.max_paths, query_timeout_ms=qt, want_witness=bool(case.witness), deadline=deadline,
+                           shard=shard)
         from .shims import numpy_shim, misc_shim
 
         def wrapped(ex_, **p):
@@ -143,7 +146,11 @@ def main(argv=None):
         for i, c in enumerate(cs):
             if a.only and a.only not in c.name:
                 continue
-            jobs.append((modname, i, a.tier, qt))
+            if c.shards > 1:
+                for k in range(c.shards):
+                    jobs.append((modname, i, a.tier, qt, (k, c.shards, c.shard_depth)))
+            else:
+                jobs.append((modname, i, a.tier, qt, None))
             meta[(modname, i)] = c
     ctx = mp.get_context("fork")
     with ctx.Pool(min(a.jobs, max(1, len(jobs)))) as pool:
@@ -162,7 +169,32 @@ def main(argv=None):
     replay_reqs = {}   # env key -> list of (request, outcome, case)
     witness_reqs = {}
     stubs, assumptions, bounds = set(), set(), {}
+    # merge the shards of a case
+    merged = {}
+    order = []
     for job, r in zip(jobs, results):
+        k = (job[0], job[1])
+        if k not in merged:
+            merged[k] = r
+            order.append((job, k))
+            continue
+        m = merged[k]
+        if r.get("error"):
+            m["error"] = (m.get("error") or "") + r["error"]
+            continue
+        if m.get("error"):
+            continue
+        for sk in m["stats"]:
+            m["stats"][sk] += r["stats"][sk]
+        m["complete"] = m["complete"] and r["complete"]
+        m["notes"] += r["notes"]
+        m["outcomes"] += r["outcomes"]
+        m["samples"] += r["samples"]
+        m["witnesses"] += r["witnesses"]
+        m["wall_s"] = max(m["wall_s"], r["wall_s"])
+        m["loaded"] += r["loaded"]
+    for job, k in order:
+        r = merged[k]
         c = meta[(job[0], job[1])]
         stubs.update(c.stubs)
         assumptions.update(c.assumptions)
